@@ -295,34 +295,53 @@ def check_zero_filter(ctx, rep):
     if len(ctors) != 1:
         rep.unknown("GZ", None, None, "Transportation1dSorter constructor", "found %d" % len(ctors))
         return
-    f = ctors[0]
-    pids = {p.get("id"): p.get("name") for p in f.params}
+    ctor = ctors[0]
+
+    def sites_in(f):
+        """(call node, position expr, filtered?) for every push of `positions[i]` of a parameter vector into a sort list."""
+        pids = {p.get("id"): p.get("name") for p in f.params}
+        out = []
+        for x in walk(f.body):
+            if x.get("kind") != "CXXMemberCallExpr":
+                continue
+            ci = callee_info(x)
+            if not ci or ci["name"] not in ("emplace_back", "push_back") or len(ci["args"]) < 2:
+                continue
+            a0 = canon(ci["args"][0])
+            if not (a0[0] == "index" and a0[1][0] == "var" and a0[1][1] in pids):
+                continue
+            idx = a0[2]
+            ok = False
+            for gc, val, _a, _as in (ctx.guards(f, x) or []):
+                if gc[0] == "bin" and gc[1] in (">", "!=") and val is True and gc[3][0] == "lit" and str(gc[3][1]).rstrip("L") == "0":
+                    l = gc[2]
+                    if l[0] == "index" and l[1][0] == "var" and l[1][1] in pids and l[1][1] != a0[1][1] and l[2] == idx:
+                        ok = True
+            out.append((x, a0, ok, f))
+        return out
+
+    sites = sites_in(ctor)
+    # a helper that receives (positions, quantities) of the constructor's parameters and builds the list for them
+    cp = {p.get("id") for p in ctor.params}
+    for x in walk(ctor.body):
+        if x.get("kind") in ("CallExpr", "CXXMemberCallExpr"):
+            ci = callee_info(x)
+            if ci and sum(1 for a in ci["args"] if canon(a)[0] == "var" and canon(a)[1] in cp) >= 2:
+                _c, hs = ctx.eff.resolve_callee(x)
+                for h in hs:
+                    if h.body is not None and h.key != ctor.key:
+                        sites += sites_in(h)
     n = 0
-    for x in walk(f.body):
-        if x.get("kind") != "CXXMemberCallExpr":
-            continue
-        ci = callee_info(x)
-        if not ci or ci["name"] not in ("emplace_back", "push_back") or len(ci["args"]) < 2:
-            continue
-        a0 = canon(ci["args"][0])
-        if not (a0[0] == "index" and a0[1][0] == "var" and a0[1][1] in pids):
-            continue
+    for x, a0, ok, f in sites:
         n += 1
-        idx = a0[2]
-        ok = False
-        for gc, val, _a, _as in (ctx.guards(f, x) or []):
-            if gc[0] == "bin" and gc[1] in (">", "!=") and val is True and gc[3][0] == "lit" and str(gc[3][1]).rstrip("L") == "0":
-                l = gc[2]
-                if l[0] == "index" and l[1][0] == "var" and l[1][1] in pids and l[1][1] != a0[1][1] and l[2] == idx:
-                    ok = True
-        what = "position %s enters the sorted problem" % pretty(a0)
+        what = "position %s enters the sorted problem (%s)" % (pretty(a0), f.short)
         if ok:
             rep.holds("GZ", x, f, what, "only under a positivity test on the same index of the matching quantity vector")
         else:
             rep.violation("GZ", x, f, what, "entries of zero supply / demand are not filtered out: the solver's sweep assumes every source and "
                           "sink has room (it either refuses the instance or scans past the last sink)", key="Transportation1dSorter::Transportation1dSorter|zero entries kept")
     if n < 2:
-        rep.unknown("GZ", f.decl, f, "sort lists", "expected the source and the sink list to be filled from the position vectors, found %d fill site(s)" % n)
+        rep.unknown("GZ", ctor.decl, ctor, "sort lists", "expected the source and the sink list to be filled from the position vectors, found %d fill site(s)" % n)
 
 
 def check_totals(ctx, rep):
